@@ -2,6 +2,7 @@
 import json
 import os
 from harness import *
+from absdom import Aff
 import tab
 from rules.c05 import REG, leaf
 
@@ -275,6 +276,39 @@ def check(env, rep, tier):
                    {"file": vs["0.3"]["span"]["f"], "line": vs["0.3"]["span"]["l"], "fn": vs["0.3"]["path"]},
                    sample={"rule": "C19.6", "method": "%s::%s" % (tr, name), "signature": sorted(map(str, s3))[:6]})
         rep.floor("C19.6", "methods shared by the 0.2 and 0.3 impls", n, 10)
+        # the flattening option iterators end only when the option map is exhausted
+        # (an empty value list left behind by clear_option must be skipped, not end the view)
+        n_ad = 0
+        for b in prog.bodies.values():
+            if b.get("promoted") or b.get("impl_trait") != "core::iter::traits::iterator::Iterator" or b.get("name") != "next":
+                continue
+            if "MessageOptionAdapter" not in prog.types[b["impl_self"]]["s"]:
+                continue
+            n_ad += 1
+            I = new_interp(prog)
+            I.no_join_bodies.add(b["id"])
+            st = State()
+            a0 = I.mat(st, prog.ty(b["locals"][1]["ty"]), "self")
+            sty = prog.ty(b["locals"][1]["ty"])[2]
+            I.ensure(st, a0.place, sty, "self")
+            fts = I.field_types(sty)
+            names = [f["name"] for f in prog.adts[sty[1]]["variants"][0]["fields"]]
+            for i, t_ in enumerate(fts):
+                v = I.ensure(st, a0.place.extend(("f", i)), t_, "self.%s" % names[i])
+                if isinstance(v, OpaqueV) and "btree" in prog.types[prog.adts[sty[1]]["variants"][0]["fields"][i]["ty"]]["s"]:
+                    I.write(st, a0.place.extend(("f", i)), OpaqueV(v.ty, (("iter", "iter"), ("last_key", Aff.const(-1)))))
+            I, res = run(prog, b, args=[a0], st=st, I=I)
+            ok = bool(res)
+            n_none = 0
+            for s, rv in res:
+                if isinstance(rv, EnumV) and 0 in rv.variants:
+                    n_none += 1
+                    if not s.ghost.get(("inj", "map-exhausted")):
+                        ok = False
+            rep.ob("C19.6", "%s|ends-only-when-exhausted" % b["path"], ok and n_none > 0,
+                   "%s can return None although the option map has further entries (e.g. after an emptied value list): options vanish from the generic view" % b["path"],
+                   {"file": b["span"]["f"], "line": b["span"]["l"], "fn": b["path"]}, sample={"rule": "C19.6", "adapter": b["path"], "none_paths": n_none})
+        rep.floor("C19.6", "option-flattening iterators", n_ad, 2)
         # ---- C19.7 sorted-options marker justified by the container
         a = prog.adts.get("packet::Packet")
         has_marker = any(im.get("trait", "").endswith("WithSortedOptions") and prog.types[im["self_ty"]]["s"] == "packet::Packet" for im in prog.impls)
